@@ -48,7 +48,11 @@ func FetchRecord(ctx context.Context, r Resolver, fromDomain string) (policyDoma
 			return "", nil, err
 		}
 	}
-	if len(txts) == 0 {
+	// Records that are not DMARC policies are discarded first (RFC 7489
+	// Section 6.6.3), e.g. a wildcard TXT record should not hide the policy of
+	// the organizational domain.
+	records := filterRecords(txts)
+	if len(records) == 0 {
 		// No records or 'no such host', try orgDomain.
 		// Public Suffix List lookup is case-sensitive.
 		orgDomain, err := publicsuffix.EffectiveTLDPlusOne(strings.ToLower(fromDomain))
@@ -65,27 +69,27 @@ func FetchRecord(ctx context.Context, r Resolver, fromDomain string) (policyDoma
 				return "", nil, err
 			}
 		}
-		// Still nothing? Bail out.
-		if len(txts) == 0 {
-			return "", nil, nil
-		}
+		records = filterRecords(txts)
 	}
 
-	// Exclude records that are not DMARC policies.
-	records := txts[:0]
-	for _, txt := range txts {
-		if strings.HasPrefix(txt, "v=DMARC1") {
-			records = append(records, txt)
-		}
-	}
 	// Multiple records => no record.
 	if len(records) > 1 || len(records) == 0 {
 		return "", nil, nil
 	}
 
 	rec, err = dmarc.Parse(records[0])
-
 	return policyDomain, rec, err
+}
+
+// filterRecords excludes records that are not DMARC policies.
+func filterRecords(txts []string) []string {
+	records := txts[:0]
+	for _, txt := range txts {
+		if strings.HasPrefix(txt, "v=DMARC1") {
+			records = append(records, txt)
+		}
+	}
+	return records
 }
 
 type EvalResult struct {
